@@ -340,7 +340,9 @@ where
             .ok_or_else(|| anyhow!("Missing auxiliary_polys_next"))?;
 
         if let Some(ctl_zs_first) = ctl_zs_first {
-            ensure!(ctl_zs_first.len() == num_ctl_zs);
+            // An empty vector is never produced by the prover (it would send `None`), and
+            // `to_fri_openings` relies on that.
+            ensure!(!ctl_zs_first.is_empty() && ctl_zs_first.len() == num_ctl_zs);
         }
 
         ensure!(auxiliary_polys_cap.len() == 1 << cap_height);
